@@ -98,11 +98,17 @@ class DagWalker(Walker):
         if expression in self.memoization:
             return self.memoization[expression]
 
-        res = self.iter_walk(expression, **kwargs)
-
-        if self.invalidate_memoization:
-            self.memoization.clear()
-        return res
+        # The stack and the memoization are shared by all the walks performed
+        # by this object: if a walk function raises, the pending entries (and,
+        # for one-time caches, the partial results, which may depend on the
+        # kwargs of this call) must not be seen by the next walk.
+        stack_size = len(self.stack)
+        try:
+            return self.iter_walk(expression, **kwargs)
+        finally:
+            del self.stack[stack_size:]
+            if self.invalidate_memoization:
+                self.memoization.clear()
 
     def _get_key(self, expression: FNode, **kwargs):
         if not kwargs:
